@@ -10,6 +10,12 @@ From FV.C02.gen Require Import ResCfg.
 Theorem C02_header_skip : skip_old = 3 /\ skip_new = 11.
 Proof. split; reflexivity. Qed.
 
+(* per-run tie of the file layer (shared with C04): StringSeries.read_file /
+   read_files read the file on every call (no cache between a rewrite and the
+   next read of the same path) *)
+Theorem C02_reader_reads_file : reads_file_every_call = true.
+Proof. reflexivity. Qed.
+
 Section Statement.
   (* values as FrontISTR prints them (1.0000000000000000E+00): trusted facts
      about the number format, exercised by the correspondence check *)
